@@ -212,7 +212,8 @@ CHECKS = {
              "with its own i18n parameters defines its own conversion "
              "helpers; simple_translate substitutes by mapping membership "
              "(not truthiness).  simple_translate's substitution regex and "
-             "the translation function's own behaviour are not decided."),
+             "the translation function's own behaviour are not decided."
+             " Known finding: i18n:name blocks whose names differ only in '-' / '_' share a capture variable."),
     "C12": dict(
         technique="structural rules on the error plumbing: insertion point of "
                   "token references, def-use of the source text across "
@@ -322,7 +323,8 @@ CHECKS = {
              "modules are published in sys.modules only after executing.",
         note="Trusted: atomic rename within one directory, py_compile. "
              "Equality of rendering with/without cache follows from key "
-             "coverage and is not computed."),
+             "coverage and is not computed."
+             " Known finding: a value without a stable name enters the key as its address-based repr()."),
     "C16": dict(
         technique="must-pass-through by path enumeration (cook_check before "
                   "compiled state), path rules on cook_check / cook / "
